@@ -270,7 +270,7 @@ def exchangeRefresh (w : World) (c : TClient) (t : Tok) (req : Option (List Nat)
 reach here with well-formed scopes). -/
 def exchangeCC (w : World) (c : TClient) (authValid : Bool) (req : Option (List Nat)) (ct : Nat) :
     World × Except OErr Resp :=
-  if !authValid then (w, .error ccUnauthenticatedErr)
+  if !ccAuthOk authValid then (w, .error ccUnauthenticatedErr)
   else
     let rs := req.getD []
     let avail := rs.filter (fun x => c.clientScopes.contains x)
